@@ -131,7 +131,16 @@ async fn run(input: RunInput, mode: Mode) -> RunOutput {
     let n = w.param("nodes", 3, 5) as usize;
     let n_ops = w.param("ops", 1, 30) as usize;
     let idle_ms = w.param("idle_ms", 2_000, 10_000) as u64;
-    let ka_ms = w.flag("keepalive", 0.6).then(|| w.param("keepalive_ms", 300, idle_ms as i64 / 2 - 100) as u64);
+    // keep-alive absent, below half the idle timeout (keeps idle connections alive) or - an odd
+    // but legal configuration - at or above it (never fires in time)
+    let ka_ms = w.flag("keepalive", 0.6).then(|| {
+        if w.flag("keepalive_at_or_above_idle", 0.2) {
+            w.param("keepalive_long_ms", idle_ms as i64, 2 * idle_ms as i64) as u64
+        } else {
+            w.param("keepalive_ms", 300, idle_ms as i64 / 2 - 100) as u64
+        }
+    });
+    let ka_effective = ka_ms.filter(|k| *k < idle_ms);
     let lat_max = w.param("lat_max_us", 300, 20_000) as u64;
     let connect_timeout_ms = w.param("connect_timeout_ms", 1_000, 3_000) as u64;
     let mut cfg = base_config(idle_ms, ka_ms);
@@ -158,11 +167,12 @@ async fn run(input: RunInput, mode: Mode) -> RunOutput {
     // interval (QUIC restarts the idle timer on the first ack-eliciting packet sent after the
     // last one received) + latency + quantum
     let spike_ms = 0u64;
-    let bound_ns = (idle_ms + ka_ms.unwrap_or(0) + 2 * lat_max / 1000 + spike_ms + 50) * 1_000_000;
+    let bound_ns = (idle_ms + ka_effective.unwrap_or(idle_ms) + 2 * lat_max / 1000 + spike_ms + 50) * 1_000_000;
 
     let mut r = w.rng("wl:ops");
     let mut interesting = false;
     let mut crashed = false;
+    let mut silent_death: Option<(u64, usize)> = None;
     let mut disconnect_checks = 0u64;
     let mut op_log = Vec::new();
     // active network faults (to heal later)
@@ -195,6 +205,11 @@ async fn run(input: RunInput, mode: Mode) -> RunOutput {
         }
         let kind = r.gen_range(0..100);
         let desc: String;
+        if let Some((_, dead)) = silent_death {
+            if i == dead {
+                continue; // the dead node does nothing any more
+            }
+        }
         if kind < 35 {
             // dial (also a re-dial when already connected: replacement)
             let already = slots[i].node.net.peers().contains(&ids[j]);
@@ -258,6 +273,15 @@ async fn run(input: RunInput, mode: Mode) -> RunOutput {
                     w.check(rr.is_err(), "rpc-succeeds-after-disconnect", "rpc", || format!("n{i}>n{j} succeeded after disconnect without a new connection"));
                 }
             }
+        } else if kind < 58 && !faulty && silent_death.is_none() && w.now_ms() > 500 {
+            // silent death: the node is cut off from everybody for good (to its peers the same as a
+            // crash without restart). The network was fault-free until now, so RTT estimates are
+            // small and the plain idle-timeout bound applies to everybody who listed it.
+            w.fabric.isolate(addrs[i]);
+            silent_death = Some((w.now_ns(), i));
+            crashed = true;
+            interesting = true;
+            desc = format!("silent-death n{i}");
         } else if kind < 63 {
             // restart with the same identity and address; half of them after a *crash*: the node is
             // cut off from everybody first, so no peer hears a close, and the new incarnation
@@ -374,6 +398,9 @@ async fn run(input: RunInput, mode: Mode) -> RunOutput {
     }
     // ---- fault-free tail ----
     w.fabric.heal_all();
+    if let Some((_, dead)) = silent_death {
+        w.fabric.isolate(addrs[dead]);
+    }
     for (_, a, b, _) in &healing {
         w.fabric.set_link(addrs[*a], addrs[*b], link.clone());
         w.fabric.set_link(addrs[*b], addrs[*a], link.clone());
@@ -389,6 +416,45 @@ async fn run(input: RunInput, mode: Mode) -> RunOutput {
         }
     }
     if mode == Mode::C09 && !w.violated() {
+        // (0) silent death in an otherwise fault-free run: everybody who listed the dead node
+        // reports it lost within idle timeout + one keep-alive interval (keep-alives that fire in
+        // time) or two idle timeouts (none) - the last clause of the property with the exact
+        // transport bound
+        if let Some((t_dead, dead)) = silent_death {
+            // QUIC restarts the idle timer on a receive and on the *first* ack-eliciting packet sent
+            // after the last receive (RFC 9000 10.1). With keep-alives below the idle timeout that
+            // first send comes at most one keep-alive interval after the last receive; otherwise it
+            // may be an application RPC sent just before expiry: two idle periods in the worst case.
+            let exact_ns = (idle_ms + ka_effective.unwrap_or(idle_ms) + 2 * lat_max / 1000 + 500) * 1_000_000;
+            for a in 0..n {
+                if a == dead || slots[a].incarnation > 0 {
+                    continue;
+                }
+                let log = slots[a].log.lock().unwrap().clone();
+                let mut listed_at_death = false;
+                for (t, e) in &log {
+                    if *t > t_dead {
+                        break;
+                    }
+                    match e {
+                        PeerEvent::NewPeer(q) if *q == ids[dead] => listed_at_death = true,
+                        PeerEvent::LostPeer(q, _) if *q == ids[dead] => listed_at_death = false,
+                        _ => {}
+                    }
+                }
+                if !listed_at_death {
+                    continue;
+                }
+                let lost_at = log.iter().find(|(t, e)| *t >= t_dead && matches!(e, PeerEvent::LostPeer(q, _) if *q == ids[dead])).map(|x| x.0);
+                let now = w.now_ns();
+                match lost_at {
+                    Some(t) if t <= t_dead + exact_ns => w.probe("silent-death-detected-in-time"),
+                    Some(t) => w.violate("silent-loss-detected-later-than-idle-timeout", format!("keepalive={}", match ka_ms { None => "none", Some(k) if k < idle_ms => "below-idle", _ => "at-or-above-idle" }), format!("n{dead} went silent at {} ms; n{a} listed it and reported LostPeer only {} ms later (idle timeout {idle_ms} ms, keep-alive {ka_ms:?} ms)", t_dead / 1_000_000, (t - t_dead) / 1_000_000)),
+                    None if now > t_dead + exact_ns => w.violate("silent-loss-detected-later-than-idle-timeout", format!("keepalive={}", match ka_ms { None => "none", Some(k) if k < idle_ms => "below-idle", _ => "at-or-above-idle" }), format!("n{dead} went silent at {} ms; n{a} listed it and has not reported LostPeer {} ms later (idle timeout {idle_ms} ms, keep-alive {ka_ms:?} ms)", t_dead / 1_000_000, (now - t_dead) / 1_000_000)),
+                    None => {}
+                }
+            }
+        }
         // (1) mutual views, and every listed peer answers.
         // QUIC's effective idle timeout is max(idle timeout, 3 x PTO) (RFC 9000 10.1). Loss during
         // a handshake or a survived partition legitimately yields RTT samples up to S = the
@@ -444,19 +510,26 @@ async fn run(input: RunInput, mode: Mode) -> RunOutput {
                 if deadline > now {
                     continue;
                 }
-                // was b listing a at the deadline?
+                // was b, at the deadline, still listing a through a connection that predates the loss?
                 let mut listed = false;
+                let mut listed_since = 0u64;
                 for (tb, eb) in &logs[b] {
                     if *tb > deadline {
                         break;
                     }
                     match eb {
-                        PeerEvent::NewPeer(q) if *q == ids[a] => listed = true,
+                        PeerEvent::NewPeer(q) if *q == ids[a] => {
+                            if !listed {
+                                listed_since = *tb;
+                            }
+                            listed = true;
+                        }
                         PeerEvent::LostPeer(q, _) if *q == ids[a] => listed = false,
                         _ => {}
                     }
                 }
-                if listed {
+                // (a listing that began after the loss belongs to a newer connection)
+                if listed && listed_since <= *t + 2_000_000 {
                     // legitimate only if a itself got a newer connection with b in the meantime
                     let renewed = logs[a][idx + 1..].iter().any(|(ta, ea)| *ta <= deadline && matches!(ea, PeerEvent::NewPeer(q) if q == p));
                     if !renewed {
